@@ -42,9 +42,29 @@ class C07(Check):
     required_probes = {'thorough': ['array_update', 'wildcard_update', 'node_values', 'edge_update', 'shared_nt']}
 
     def strata(self, tier):
-        return [('S-update_var', 4), ('S-apply-values', 3), ('S-edges', 2), ('S-mixed', 3), ('S-compile-between', 1), ('S-failed-compile', 2), ('S-grow-circuit', 2)]
+        return [('S-update_var', 4), ('S-apply-values', 3), ('S-edges', 2), ('S-mixed', 3), ('S-compile-between', 1), ('S-failed-compile', 2), ('S-grow-circuit', 2), ('S-conn-edges', 1)]
 
     def generate(self, rng, stratum, tier):
+        if stratum == 'S-conn-edges':
+            # Population / Connectivity API: several connections whose (dynamic) EdgeTemplates share ONE operator template and
+            # differ in its overrides; every connection must keep its own values in the compiled model
+            g = lambda lo, hi: rng.randint(lo, hi) / 16
+            pops = {k: {'n': rng.randint(2, 3), 'a': None, 'x0': None} for k in ['pa', 'pb'] + (['pc'] if rng.random() < 0.4 else [])}
+            pool = [v for v in range(-60, 61) if v]
+            rng.shuffle(pool)
+            for q in pops.values():
+                q['a'] = [g(4, 40) for _ in range(q['n'])]
+                q['x0'] = [pool.pop() / 64 for _ in range(q['n'])]
+            conns = []
+            names = list(pops)
+            for j in range(rng.randint(2, 3)):
+                s, t = rng.choice(names), rng.choice(names)
+                if any(c_['s'] == s and c_['t'] == t for c_ in conns):
+                    continue        # (parallel connections between the same variables are refused by the implementation)
+                conns.append({'s': s, 't': t, 'tau': g(1, 40), 'tname': rng.choice(['ea', 'eb']),
+                              'W': [[g(-24, 24) if rng.random() < 0.8 else 0.0 for _ in range(pops[s]['n'])] for _ in range(pops[t]['n'])]})
+            return {'mode': 'conn', 'spec': {'pops': pops, 'conns': conns}, 'ops': [],
+                    'cfg': {'dt': rng.choice([1e-3, 0.01]), 'steps': rng.randint(8, 30), 'vectorize': rng.random() < 0.8}}
         spec = models.gen_aliased(rng, build=rng.choice(['python', 'python', 'yaml']))
         if rng.random() < 0.35:
             models.add_edge_templates(rng, spec, p=0.6)
@@ -197,6 +217,8 @@ class C07(Check):
         import warnings
         warnings.filterwarnings('ignore')
         import numpy as np
+        if trace.get('mode') == 'conn':
+            return self._execute_conn(trace, np)
         from sim.observer import Observer, snapshot
         from sim.world import World
         from sim import observe
@@ -380,6 +402,68 @@ class C07(Check):
                 res['violations'].append(v)
                 break
         res['nontrivial'] = n_over >= 1 and compiled_ok and len(set(flat_nodes.values())) < len(flat_nodes)
+        return res
+
+    def _execute_conn(self, trace, np):
+        from pyrates import CircuitTemplate, NodeTemplate, OperatorTemplate, EdgeTemplate
+        from pyrates.frontend.template.population import PopulationTemplate, Connectivity
+        spec, cfg = trace['spec'], trace['cfg']
+        res = {'violations': [], 'digest': digest([spec, cfg]), 'nontrivial': False, 'probes': {'conn_edges': 1}, 'faults': {},
+               'stats': {}}
+        op = OperatorTemplate(name='lin', equations=["x' = -a*x + u"], variables={'x': 'output(0.0)', 'a': 1.0, 'u': 'input(0.0)'})
+        nd = NodeTemplate(name='n', operators=[op])
+        eop = OperatorTemplate(name='lp_op', equations=["v' = (-v + r_pre) / tau_u", 's = v'],
+                               variables={'v': 0.0, 'r_pre': 'input', 'tau_u': 0.1, 's': 'output'})
+        def mk():
+            pops_ = {k: PopulationTemplate(name=k, node=nd, n=q['n'], params={'lin/a': list(q['a']), 'lin/x': list(q['x0'])})
+                     for k, q in spec['pops'].items()}
+            conns_ = [Connectivity(f"{c['s']}/lin/x", f"{c['t']}/lin/u", np.array(c['W']),
+                                   edge=EdgeTemplate(name=f"{c['tname']}{j}", operators={eop: {'tau_u': c['tau']}}),
+                                   edge_var_map={'r_pre': 'source'}) for j, c in enumerate(spec['conns'])]
+            return CircuitTemplate(name='c', populations=pops_, connections=conns_)
+        pops = spec['pops']
+        dt, steps = cfg['dt'], cfg['steps']
+        try:
+            # (two circuit objects over the same operator templates: run() after get_run_func(in_place=False) on ONE
+            # template is KF-C14-stale-run-bookkeeping's subject)
+            f, args, names, smap = mk().get_run_func('vf', dt, vectorize=cfg['vectorize'], verbose=False, float_precision='float64',
+                                                     in_place=False, clear=True)
+            R = mk().run(steps * dt, dt, outputs={k: f'{k}/lin/x' for k in pops}, solver='euler', vectorize=cfg['vectorize'],
+                         verbose=False, float_precision='float64')
+        except Exception as e:
+            res['discard'] = f'model refused: {type(e).__name__}: {str(e)[:60]}'
+            return res
+        # (1) every connection's override is an argument value of the compiled function
+        taus = sorted(float(np.asarray(a).reshape(-1)[0]) for n_, a in zip(names, args) if 'tau_u' in str(n_))
+        want = sorted(c['tau'] for c in spec['conns'])
+        if taus != want:
+            res['violations'].append({'law': 'L-reach', 'cls': 'silent', 'key': 'connectivity-edge-override',
+                                      'detail': f'edge time constants of the compiled function are {taus}, the connections declare {want}'})
+            return res
+        # (2) trajectory against an explicit Euler loop (per-pair edge states)
+        x = {k: np.array(q['x0'], dtype=float) for k, q in spec['pops'].items()}
+        U = [np.zeros((spec['pops'][c['t']]['n'], spec['pops'][c['s']]['n'])) for c in spec['conns']]
+        rows = []
+        for k_ in range(steps):
+            rows.append({k: v.copy() for k, v in x.items()})
+            u_in = {k: np.zeros(q['n']) for k, q in spec['pops'].items()}
+            for c, Uc in zip(spec['conns'], U):
+                u_in[c['t']] += (np.array(c['W']) * Uc).sum(axis=1)
+            dx = {k: -np.array(spec['pops'][k]['a']) * x[k] + u_in[k] for k in x}
+            dU = [(-Uc + x[c['s']][None, :]) / c['tau'] for c, Uc in zip(spec['conns'], U)]
+            x = {k: x[k] + dt * dx[k] for k in x}
+            U = [Uc + dt * d for Uc, d in zip(U, dU)]
+        for col in R.columns:
+            key, i = (col if isinstance(col, tuple) else (col, 0))
+            g = np.asarray(R[col].values, dtype=float)
+            for r_ in range(min(len(g), steps)):
+                w_ = rows[r_][key][int(i)]
+                if abs(g[r_] - w_) > 1e-9 * max(1.0, abs(w_)):
+                    res['violations'].append({'law': 'L-reach', 'cls': 'silent', 'key': 'connectivity-edge-run',
+                                              'detail': f'unit {key}[{i}] row {r_}: run {g[r_]!r}, explicit loop with every connection\'s own '
+                                                        f'edge constant {w_!r}; connections {[(c["s"], c["t"], c["tau"]) for c in spec["conns"]]}'})
+                    return res
+        res['nontrivial'] = True
         return res
 
     @staticmethod
